@@ -3,6 +3,7 @@ replayed from the backend cache in a later execution.  Models: lean/RedunModel/M
 lean/RedunModel/Model/CacheLookup.lean (lookup decision of check_cache / _get_cache)."""
 import itertools
 import random
+import time
 
 ID = "C12"
 READY = True
@@ -102,6 +103,10 @@ def corpus():
         "shallow-leaf": L.s_raiser("V", 17),
         "shallow-deep": L.inc(L.s_fail_after(2, "K")),
         "shallow-in-list": [L.s_inc(1), L.s_raiser("L", 18)],
+        # an error that cannot be pickled is recorded through the Exception(repr(error)) fallback, and still propagates as itself
+        "unpicklable-leaf": L.busy(1),
+        "unpicklable-deep": {"result": L.pair([L.inc(1), L.busy(2)], 3)},
+        "unpicklable-caught": catch(L.inc(L.busy(3)), L.LibError, L.rec_val),
         "success": L.add(L.inc(1), b=L.twice(3)),
         "caught": L.guard(2, 2),
     }
@@ -215,6 +220,9 @@ def execution_ids(sched):
 def check_failed_rows(ctx, G, name, sx, k, outcome, rows, done, log):
     """run k raised `outcome`: root FAILED with it; a job whose function raised it has only FAILED-with-it ancestors"""
     case = {"program": name, "expr": sx, "execution": k}
+    # an error that cannot be serialised is recorded as Exception(repr(error)) (documented fallback of _reject_job_main_thread)
+    alt = ("err", "Exception", "%s(%r)" % (outcome[1], outcome[2]))
+    rows = {jid: (r[0], r[1], outcome if r[2] == alt else r[2], r[3]) for jid, r in rows.items()}
     roots = [jid for jid, r in rows.items() if r[0] is None]
     if len(roots) != 1:
         ctx.violation("C12-root-job-rows", "execution does not have exactly one root job row", case=case, expected=1, actual=len(roots))
@@ -266,6 +274,8 @@ def flush_lookups(ctx, pending):
 
 
 FORKERS = ("ev.fork_", "ev.forker")
+SAME_SCHED = ("in-list", "two-different", "same-call-twice", "same-call-twice-seq", "caught-then-uncaught", "deep", "map-element")
+CPU_BUDGET_QUICK, CPU_BUDGET_THOROUGH = 8.0, 330.0       # seconds of process CPU for the generated stream (not wall clock)
 STALE = "C12-stale-completion-event-crashes-next-execution"
 SUBRUN_REPLAY = "C12-failure-under-extended-subrun-replayed-from-cache"
 
@@ -489,7 +499,8 @@ def run(ctx):
     rng = ctx.rng
     progs = [(name, e, G.to_sx(e)) for name, e in corpus().items()]
     base = rng.getrandbits(48)
-    for i in range(ctx.n(170, 1300)):
+    t_cpu = None
+    for i in range(ctx.n(45, 1300)):
         prng = random.Random(base + i)
         gen = G.Gen(prng, p_err=prng.choice([0.15, 0.25, 0.4]), max_fan=3 if ctx.tier == "quick" else 4)
         for _ in range(30):
@@ -503,16 +514,24 @@ def run(ctx):
             continue
         progs.append(("g%d" % i, e, sx))
     replies = ctx.model("C01", ["(eval i%d %s)" % (FUEL, sx) for _, _, sx in progs])
-    n_all = ctx.n(20, 200)
+    n_all = ctx.n(5, 200)
     pending = []
+    ncorpus = len(corpus())
+    cpu_budget = CPU_BUDGET_QUICK if ctx.tier == "quick" else CPU_BUDGET_THOROUGH
     for i, ((name, e, sx), rep) in enumerate(zip(progs, replies)):
+        if i >= ncorpus and t_cpu is None:
+            t_cpu = time.process_time()         # the budget covers the generated stream only
+        if i >= ncorpus and time.process_time() - t_cpu > cpu_budget * ctx.search_boost:
+            ctx.note("CPU budget reached after %d of %d programs (corpus always runs in full)" % (i, len(progs)))
+            ctx.count("budget", "generated programs skipped", len(progs) - i)
+            break
         run_two(ctx, G, R, name, e, sx, rep, rng.getrandbits(30), pending, probe_all=(i % max(1, len(progs) // n_all) == 0))
-        if i % 3 == 0 or name in ("in-list", "two-different", "same-call-twice"):
+        if name in SAME_SCHED or (i >= ncorpus and i % 4 == 0):
             run_same_scheduler(ctx, G, R, name, e, sx, rep, rng.getrandbits(30))
     flush_lookups(ctx, pending)
     # failures below a sub-scheduler (file backend, real executors)
     sub = [(n, e, G.to_sx(e)) for n, e in subrun_corpus().items()]
-    for i in range(ctx.n(4, 40)):
+    for i in range(ctx.n(1, 40)):
         prng = random.Random(base * 3 + i)
         gen = G.Gen(prng, p_err=0.4, max_fan=2)
         for _ in range(30):
@@ -524,8 +543,10 @@ def run(ctx):
                 pass
     reps = ctx.model("C01", ["(eval i%d %s)" % (FUEL, sx) for _, _, sx in sub])
     for i, ((name, e, sx), rep) in enumerate(zip(sub, reps)):
+        if ctx.tier == "quick" and name in ("sub-in-list", "sub-shallow"):
+            continue
         run_subrun(ctx, G, R, name, e, sx, rep, ne=False)
-        if i % 3 == 0:
+        if i % 3 == 0 and ctx.tier != "quick" or name == "sub-deep":
             run_subrun(ctx, G, R, name, e, sx, rep, ne=True)
 
 
